@@ -1,6 +1,9 @@
 package main
 
 import (
+	"mime"
+	"strings"
+
 	"verif.local/lab/rt"
 	"verif.local/lab/spec"
 )
@@ -33,4 +36,22 @@ func countMultipart(run interface{ Count(string, int) }, sp *spec.Spec, ex *rt.E
 			run.Count("multipart_methods_driven_with_params", 1)
 		}
 	}
+}
+
+// stripBoundary replaces the boundary a multipart request announces in its Content-Type (mime/multipart draws
+// it from crypto/rand for every request) by a fixed word wherever it occurs in s, the rendering of that
+// request: two renderings are then equal exactly when the requests are equal up to the choice of the
+// boundary. A body delimited by ANOTHER boundary than the announced one keeps it and still differs.
+func stripBoundary(w *rt.WireReq, s string) string {
+	for k, vs := range w.Header {
+		if !strings.EqualFold(k, "Content-Type") {
+			continue
+		}
+		for _, v := range vs {
+			if mt, params, err := mime.ParseMediaType(v); err == nil && strings.HasPrefix(mt, "multipart/") && len(params["boundary"]) >= 8 {
+				s = strings.ReplaceAll(s, params["boundary"], "BOUNDARY")
+			}
+		}
+	}
+	return s
 }
